@@ -14,9 +14,14 @@
 //!   pre  operations run sequentially before the threads start
 //!   T    one operation per thread (thread id = position); every thread first runs to its first
 //!        pause point
-//!   S    schedule: thread ids; each step lets that thread run to its next pause point.  After
-//!        the schedule the harness drains: lowest-numbered runnable thread first.
-//! output: `<tid>:<pause point reached | done | blocked | noop>,.. | <drain steps> | last=<d|none> n=<len> s<sid>=[d.d.d] ..`
+//!   S    schedule: thread ids; each step lets that thread run to its next pause point (`blocked`,
+//!        without moving, when the lock probe says its acquisition would block).  `!<tid>`: if the
+//!        probe says the acquisition would block, the real thread is sent into the real lock call
+//!        anyway and must still be inside it after a bounded wait (`stuck`; `passed:<point>` if it
+//!        came through); a stuck thread goes on by itself as soon as the holder releases
+//!        (`+<tid>:<point>` appended to the step that released).  At most one thread is stuck at a
+//!        time.  After the schedule the harness drains: lowest-numbered runnable thread first.
+//! output: `<tid>:<pause point reached | done | blocked | stuck | waiting | noop>[+<tid>:<point>],.. | <drain steps> | last=<d|none> n=<len> s<sid>=[d.d.d] ..`
 use std::sync::mpsc::{Receiver, Sender, channel};
 use std::sync::{Arc, Mutex};
 use std::time::Duration;
@@ -100,6 +105,11 @@ struct Worker {
     events: Receiver<Ev>,
     at: Option<&'static str>,
     done: bool,
+    /// sent into a lock call that did not return within the bounded wait
+    committed: bool,
+    /// pause points passed since the start
+    steps: usize,
+    is_publish: bool,
     handle: Option<std::thread::JoinHandle<()>>,
 }
 
@@ -141,7 +151,8 @@ struct Case {
     filter: Filter,
     pre: Vec<Op>,
     threads: Vec<Op>,
-    sched: Vec<usize>,
+    /// (thread, attempt even if the lock probe says the step would block)
+    sched: Vec<(usize, bool)>,
 }
 
 fn parse_case(payload: &str) -> Option<Case> {
@@ -156,8 +167,16 @@ fn parse_case(payload: &str) -> Option<Case> {
     let pre = parse_ops(pre.strip_prefix("pre=")?)?;
     let threads = parse_ops(th.strip_prefix("T=")?)?;
     let sc = sc.strip_prefix("S=")?;
-    let sched: Vec<usize> =
-        if sc == "-" { vec![] } else { sc.split(',').map(|x| parse_nat(x).map(|v| v as usize)).collect::<Option<_>>()? };
+    let sched: Vec<(usize, bool)> = if sc == "-" {
+        vec![]
+    } else {
+        sc.split(',')
+            .map(|x| match x.strip_prefix('!') {
+                Some(y) => parse_nat(y).map(|v| (v as usize, true)),
+                None => parse_nat(x).map(|v| (v as usize, false)),
+            })
+            .collect::<Option<_>>()?
+    };
     // service ids must be distinct
     let mut sids: Vec<u64> = pre.iter().chain(threads.iter()).filter_map(|o| if let Op::Add(s) = o { Some(*s) } else { None }).collect();
     sids.sort();
@@ -225,30 +244,38 @@ impl C30 {
                 pause::set(None);
                 let _ = ev_tx.send(Ev::Done);
             });
-            workers.push(Worker { resume: resume_tx, events: ev_rx, at: None, done: false, handle: Some(handle) });
+            workers.push(Worker { resume: resume_tx, events: ev_rx, at: None, done: false, committed: false, steps: 0, is_publish: matches!(op, Op::Publish(_)), handle: Some(handle) });
         }
         let mut hang = false;
-        let wait = |w: &mut Worker| -> bool {
-            match w.events.recv_timeout(Duration::from_secs(10)) {
+        let mut attempts = 0usize;
+        // Wait for the worker's next event; `false` = nothing within `dur`.
+        let wait = |w: &mut Worker, dur: Duration| -> bool {
+            match w.events.recv_timeout(dur) {
                 Ok(Ev::Reached(name)) => {
                     w.at = Some(name);
+                    w.steps += 1;
                     true
                 }
                 Ok(Ev::Done) => {
                     w.at = None;
                     w.done = true;
+                    w.steps += 1;
                     true
                 }
                 Err(_) => false,
             }
         };
+        const LONG: Duration = Duration::from_secs(10);
+        // Bounded wait used to observe that a thread sent into a contended lock really blocks.
+        const SHORT: Duration = Duration::from_millis(40);
         for w in workers.iter_mut() {
-            if !wait(w) {
+            if !wait(w, LONG) {
                 hang = true;
             }
+            w.steps = 0;
         }
         let runnable = |w: &Worker, reg: &AddressLookupServices| -> bool {
-            if w.done {
+            if w.done || w.committed {
                 return false;
             }
             match w.at.and_then(lock_of) {
@@ -256,28 +283,72 @@ impl C30 {
                 None => true,
             }
         };
-        let step = |workers: &mut Vec<Worker>, tid: usize, hang: &mut bool| -> String {
-            let Some(w) = workers.get_mut(tid) else { return format!("{tid}:noop") };
+        // After a step: a thread parked inside a lock call goes on as soon as the lock is released.
+        // How long to wait for that is only a matter of speed: a long wait when no other thread that
+        // could hold the lock is inside its operation, the bounded short wait otherwise.
+        let settle = |workers: &mut Vec<Worker>| -> String {
+            let Some(c) = workers.iter().position(|w| w.committed) else { return String::new() };
+            let wants = workers[c].at.and_then(lock_of);
+            let others_inside = |only_publish: bool| {
+                workers.iter().enumerate().any(|(i, w)| i != c && w.steps > 0 && !w.done && (!only_publish || w.is_publish))
+            };
+            let expect_free = match wants {
+                Some(Lock::LastWrite) => !others_inside(false),
+                _ => !others_inside(true),
+            };
+            let w = &mut workers[c];
+            if wait(w, if expect_free { LONG } else { SHORT }) {
+                w.committed = false;
+                match w.at {
+                    Some(name) => format!("+{c}:{name}"),
+                    None => format!("+{c}:done"),
+                }
+            } else {
+                String::new()
+            }
+        };
+        let mut step = |workers: &mut Vec<Worker>, tid: usize, attempt: bool, hang: &mut bool| -> String {
+            let Some(w) = workers.get(tid) else { return format!("{tid}:noop") };
             if w.done {
                 return format!("{tid}:noop");
             }
+            if w.committed {
+                return format!("{tid}:waiting");
+            }
             if !runnable(w, &reg) {
+                if attempt && !workers.iter().any(|w| w.committed) {
+                    // Let the real thread run into the real lock call and watch it block.
+                    attempts += 1;
+                    let w = &mut workers[tid];
+                    let _ = w.resume.send(());
+                    if wait(w, SHORT) {
+                        let tok = match w.at {
+                            Some(name) => format!("{tid}:passed:{name}"),
+                            None => format!("{tid}:passed:done"),
+                        };
+                        return tok + &settle(workers);
+                    }
+                    w.committed = true;
+                    return format!("{tid}:stuck");
+                }
                 return format!("{tid}:blocked");
             }
+            let w = &mut workers[tid];
             let _ = w.resume.send(());
-            if !wait(w) {
+            if !wait(w, LONG) {
                 *hang = true;
                 return format!("{tid}:hang");
             }
-            match w.at {
+            let tok = match w.at {
                 Some(name) => format!("{tid}:{name}"),
                 None => format!("{tid}:done"),
-            }
+            };
+            tok + &settle(workers)
         };
         let mut toks: Vec<String> = Vec::new();
         if !hang {
-            for tid in &c.sched {
-                toks.push(step(&mut workers, *tid, &mut hang));
+            for (tid, attempt) in &c.sched {
+                toks.push(step(&mut workers, *tid, *attempt, &mut hang));
                 if hang {
                     break;
                 }
@@ -288,7 +359,7 @@ impl C30 {
         let mut deadlock = false;
         while !hang && workers.iter().any(|w| !w.done) {
             match (0..workers.len()).find(|i| runnable(&workers[*i], &reg)) {
-                Some(tid) => drain.push(step(&mut workers, tid, &mut hang)),
+                Some(tid) => drain.push(step(&mut workers, tid, false, &mut hang)),
                 None => {
                     deadlock = true;
                     break;
@@ -351,6 +422,12 @@ impl C30 {
         ex.tags.push(format!("threads-{}p{}a", n_pub.min(3), n_add.min(3)));
         if toks.iter().any(|t| t.ends_with(":blocked")) {
             ex.tags.push("saw-blocked".into());
+        }
+        if attempts > 0 {
+            ex.tags.push("lock-attempted-under-contention".into());
+        }
+        if toks.iter().chain(drain.iter()).any(|t| t.contains(":passed:")) {
+            ex.tags.push("passed-through-held-lock".into());
         }
         ex
     }
@@ -423,6 +500,24 @@ impl Prop for C30 {
         out.push("f=n pre=a0,a1 T=p1ri,p2ri S=0,0,0,1,1,1,1,1,0,0".into());
         // add before anything was published, publish in between
         out.push("f=r pre=- T=a0,p1ri S=0,1,1,1,0".into());
+        // a thread really sent into a held lock: publish parked at every point inside its critical
+        // section (0, 1, 2 registered services); an add, resp. a second publish, attempts its
+        // acquisition; the parked publish finishes; the other finishes
+        for n_svc in 0..3usize {
+            let pre: Vec<String> = (0..n_svc).map(|i| format!("a{i}")).chain(["p1ri".to_string()]).collect();
+            for park in 1..=(2 + n_svc) {
+                let head: Vec<&str> = std::iter::repeat_n("0", park).collect();
+                for other in [format!("a{n_svc}"), "p3r".to_string()] {
+                    for f in ['n', 'r'] {
+                        out.push(format!("f={f} pre={} T=p2ri,{other} S={},!1,0,0", pre.join(","), head.join(",")));
+                    }
+                }
+            }
+            // add parked inside its critical section, a publish attempts last_data.write()
+            out.push(format!("f=n pre={} T=a{n_svc},p2ri S=0,!1,1,0", pre.join(",")));
+            // ... with a further add arriving while the writer waits
+            out.push(format!("f=n pre={} T=a{n_svc},p2ri,a9 S=0,!1,2,0,2", pre.join(",")));
+        }
         // sequential sanity
         out.push("f=i pre=a0,p1ri,a1,p2r,a2 T=- S=-".into());
         out.push("f=n pre=- T=- S=0,1".into());
@@ -487,7 +582,16 @@ impl Prop for C30 {
             if rng.chance(1, 10) {
                 sched.push(th.len() + rng.usize_below(2));
             }
-            out.push(fmt_case(f, &pre, &th, &sched));
+            let mut case = fmt_case(f, &pre, &th, &sched);
+            // now and then one acquisition is attempted for real under contention
+            if rng.chance(1, 40) && !sched.is_empty() {
+                let (head, s) = case.rsplit_once("S=").unwrap();
+                let mut parts: Vec<String> = s.split(',').map(|x| x.to_string()).collect();
+                let i = rng.usize_below(parts.len());
+                parts[i] = format!("!{}", parts[i]);
+                case = format!("{head}S={}", parts.join(","));
+            }
+            out.push(case);
         }
     }
 
